@@ -1644,8 +1644,14 @@ class Project:
         if not os.path.exists(path):
             raise LookupError(f"Path does not exist: '{path}'.")
 
-        # Find the last match instance of a job id
-        results = list(re.finditer(JOB_ID_REGEX, path))
+        # Find the last path component that is a job id. A longer name that
+        # merely contains an id-like sequence is not a job directory.
+        results = [
+            match
+            for match in re.finditer(JOB_ID_REGEX, path)
+            if path[match.start() - 1 : match.start()] in ("", os.sep)
+            and path[match.end() : match.end() + 1] in ("", os.sep)
+        ]
         if len(results) == 0:
             raise LookupError(f"Could not find a job id in path '{path}'.")
         match = results[-1]
